@@ -313,29 +313,36 @@ def r_keep_key(F, V):
         R.undec("map::HashMap::insert not found")
     else:
         n += 1
-        # in the Ok(bucket) arm only the value (.1) of the stored tuple is written and the displaced value is returned
-        repl = [(i, t) for i, t in b.calls() if (callee_path(t) or "") == "core::mem::replace"]
-        ok = False
-        for i, t in repl:
-            r, path = _arg_root(b, t, 0)
+        # on an existing key only the value component (.1) of the stored tuple is written (by mem::replace, mem::swap,
+        # ptr::replace, ptr::write or an assignment), never the key component or the whole tuple
+        WRITERS = ("core::mem::replace", "core::mem::swap", "core::ptr::replace", "core::ptr::write", "core::ptr::mut_ptr::*mut T::write", "core::ptr::mut_ptr::*mut T::replace")
+
+        def tail_of(path):
             tail = []
             for x in path:
                 if x.startswith("."):
                     tail = []
-                elif x not in ("*", "&"):
+                elif x not in ("*", "&") and not x.startswith("as "):
                     tail.append(x)
-            if tail == ["1"]:
-                ok = True
-        key_stores = []
-        for i, k, s in b.stmts():
-            if s["k"] == "assign" and s["p"].get("proj"):
-                pr = [e for e in s["p"]["proj"] if e["k"] == "field"]
-                if pr and pr[-1]["name"] == "0" and "(K, V)" in (s["p"]["proj"][-1].get("t", "") + str(b.locals[s["p"]["l"]]["ty"]["s"])):
-                    key_stores.append(i)
+            return tail
+        tails = []
+        for i, t in b.calls():
+            if (callee_path(t) or "") in WRITERS:
+                for q in (0, 1) if (callee_path(t) or "") == "core::mem::swap" else (0,):
+                    r, path = _arg_root(b, t, q)
+                    if any(x == ".as_mut" for x in path):
+                        tails.append(tail_of(path))
+        for i, k, st in b.stmts():
+            if st["k"] == "assign" and any(e["k"] == "deref" for e in st["p"].get("proj", [])):
+                r, path = deep_root(b, st["p"])
+                if any(x == ".as_mut" for x in path):
+                    tails.append(tail_of(path))
+        ok = ["1"] in tails
+        key_stores = [t_ for t_ in tails if t_ != ["1"]]
         if ok and not key_stores:
-            R.inst("map::HashMap::insert|keep-key", "on an existing key only `.1` (the value) is replaced via mem::replace and the old value returned; the stored key is kept", "ok", True, where(b))
+            R.inst("map::HashMap::insert|keep-key", "on an existing key only `.1` (the value) of the stored pair is overwritten; the stored key is kept", "ok", True, where(b))
         else:
-            R.violation("map::HashMap::insert|keep-key", b, "HashMap::insert does not replace exactly the value component of an existing entry (value replaced through .1: %s, stores to the key component: %d)" % (ok, len(key_stores)))
+            R.violation("map::HashMap::insert|keep-key", b, "HashMap::insert does not replace exactly the value component of an existing entry (writes into the stored pair: %s): the originally stored key must be kept" % (tails or "none"))
     b = F.bodies.get("set::HashSet::replace")
     if b is not None:
         n += 1
